@@ -529,6 +529,8 @@ pub struct CallLog {
     pub fail_id: u16,
     pub ctx_seen: u16,
     pub mode_emit: bool,
+    /// 0 = succeeded / yielded an item, 1 = iterator stub reported "no more items", 2 = failed
+    pub kind: u8,
 }
 #[derive(Clone, Debug)]
 pub struct VState {
@@ -643,6 +645,8 @@ pub struct AnyP<I, E> {
     /// number of consecutive log entries reserved for successive calls of this stub (1 = a single
     /// entry that counts its calls)
     pub span: usize,
+    /// the call logged in the last reserved entry must fail (bound of driver harnesses)
+    pub bounded: bool,
     pub _p: core::marker::PhantomData<fn(I, E)>,
 }
 impl<I, E> Clone for AnyP<I, E> {
@@ -657,6 +661,7 @@ pub fn anyp<I, E>(slot: usize) -> AnyP<I, E> {
         progress: false,
         ok_offers: true,
         span: 1,
+        bounded: false,
         _p: core::marker::PhantomData,
     }
 }
@@ -667,6 +672,7 @@ pub fn anyp_multi<I, E>(slot: usize, span: usize) -> AnyP<I, E> {
         progress: false,
         ok_offers: true,
         span,
+        bounded: false,
         _p: core::marker::PhantomData,
     }
 }
@@ -676,6 +682,7 @@ pub fn anyp_prog<I, E>(slot: usize) -> AnyP<I, E> {
         progress: true,
         ok_offers: true,
         span: 1,
+        bounded: false,
         _p: core::marker::PhantomData,
     }
 }
@@ -686,41 +693,6 @@ where
     C: 'static,
 {
     pub fn run<'p>(&self, inp: &mut InputRef<'static, 'p, I, X<Er, C>>, emit: bool) -> Result<u16, ()> {
-        let len = inp.state.len;
-        let entry = inp.cursor;
-        let entry_sec = inp.errors.secondary.len();
-        let entry_believed = inp.state.believed;
-        let entry_alt_some = inp.errors.alt.is_some();
-        vassert!(entry <= len, "FW/stub-entry-cursor-valid: child entered with a cursor beyond the input");
-        ch::assume(entry <= len);
-        let ok = ch::any_bool();
-        let adv = ch::below(len - entry);
-        if self.progress && ok {
-            ch::assume(adv >= 1);
-        }
-        let newpos = entry + adv;
-        inp.cursor = newpos;
-        inp.state.believed = entry_believed.wrapping_add(adv);
-        let emitted = ch::below(2);
-        let base = 100 + (self.slot as u16) * 10;
-        if emitted >= 1 {
-            inp.emit(None, Er::mk(base, entry, newpos));
-        }
-        if emitted >= 2 {
-            inp.emit(None, Er::mk(base + 1, entry, newpos));
-        }
-        let out = ch::any_u16();
-        let offered = if ok { self.ok_offers && ch::any_bool() } else { true };
-        let mut fail_pos = 0;
-        let mut fail_id = 0;
-        if offered {
-            let fo = ch::below(len - entry);
-            fail_pos = entry + fo;
-            fail_id = 200 + self.slot as u16;
-            offer(inp, fail_pos, Er::mk(fail_id, fail_pos, fail_pos));
-        }
-        let clock = inp.state.clock;
-        inp.state.clock = clock.wrapping_add(1);
         // log entry of this call: the first unused one of the reserved span, else the last (counting)
         let mut idx = self.slot;
         let mut k = 1;
@@ -730,31 +702,90 @@ where
             }
             k += 1;
         }
-        let prev = inp.state.log[idx];
-        inp.state.log[idx] = CallLog {
-            called: true,
-            calls: prev.calls.wrapping_add(1),
-            order: clock,
-            entry_pos: entry,
-            entry_sec,
-            entry_believed,
-            entry_alt_some,
-            ok,
-            exit_pos: newpos,
-            emitted,
-            out,
-            offered,
-            fail_pos,
-            fail_id,
-            ctx_seen: 0,
-            mode_emit: emit,
-        };
-        if ok {
+        let kind = if ch::any_bool() { 0 } else { 2 };
+        if self.bounded && idx + 1 == self.slot + self.span {
+            ch::assume(kind != 0);
+        }
+        let out = stub_step(inp, idx, self.slot, kind, self.progress, self.ok_offers, emit);
+        if kind == 0 {
             Ok(out)
         } else {
             Err(())
         }
     }
+}
+/// One call of a contract stub: does anything the parser contract allows for the given outcome
+/// (`kind`: 0 success / item, 1 "no more items", 2 failure) and logs it in `log[idx]`.
+pub fn stub_step<'p, I, Er, C>(
+    inp: &mut InputRef<'static, 'p, I, X<Er, C>>,
+    idx: usize,
+    idslot: usize,
+    kind: u8,
+    progress: bool,
+    ok_offers: bool,
+    emit: bool,
+) -> u16
+where
+    I: Input<'static, Cursor = usize>,
+    Er: VE + Error<'static, I>,
+    C: 'static,
+{
+    let len = inp.state.len;
+    let entry = inp.cursor;
+    let entry_sec = inp.errors.secondary.len();
+    let entry_believed = inp.state.believed;
+    let entry_alt_some = inp.errors.alt.is_some();
+    vassert!(entry <= len, "FW/stub-entry-cursor-valid: child entered with a cursor beyond the input");
+    ch::assume(entry <= len);
+    let ok = kind == 0;
+    let adv = ch::below(len - entry);
+    if progress && ok {
+        ch::assume(adv >= 1);
+    }
+    let newpos = entry + adv;
+    inp.cursor = newpos;
+    inp.state.believed = entry_believed.wrapping_add(adv);
+    let emitted = ch::below(2);
+    let base = 100 + (idslot as u16) * 10;
+    if emitted >= 1 {
+        inp.emit(None, Er::mk(base, entry, newpos));
+    }
+    if emitted >= 2 {
+        inp.emit(None, Er::mk(base + 1, entry, newpos));
+    }
+    let out = ch::any_u16();
+    let offered = if kind == 2 { true } else { ok_offers && ch::any_bool() };
+    let mut fail_pos = 0;
+    let mut fail_id = 0;
+    if offered {
+        let fo = ch::below(len - entry);
+        fail_pos = entry + fo;
+        fail_id = 200 + idslot as u16;
+        offer(inp, fail_pos, Er::mk(fail_id, fail_pos, fail_pos));
+    }
+    let clock = inp.state.clock;
+    inp.state.clock = clock.wrapping_add(1);
+    let prev = inp.state.log[idx];
+    inp.state.log[idx] = CallLog {
+        called: true,
+        calls: prev.calls.wrapping_add(1),
+        order: clock,
+        entry_pos: entry,
+        entry_sec,
+        entry_believed,
+        entry_alt_some,
+        ok,
+        exit_pos: newpos,
+        emitted,
+        out,
+        offered,
+        fail_pos,
+        fail_id,
+        ctx_seen: 0,
+        mode_emit: emit,
+        kind,
+    };
+    out
 }
 impl<I, Er, C> Parser<'static, I, u16, X<Er, C>> for AnyP<I, X<Er, C>>
 where
@@ -829,7 +860,7 @@ where
     f(&mut inp, s0)
 }
 
-pub const SECMAX: usize = 8;
+pub const SECMAX: usize = 12;
 #[derive(Clone, Copy, Debug, PartialEq, Eq)]
 pub struct Snap {
     pub pos: usize,
@@ -906,13 +937,11 @@ impl SecSpec {
     }
     pub fn total(&self) -> usize {
         let mut t = 0usize;
-        let mut j = 0;
-        while j < SEGS {
+        unroll!(j in [0, 1, 2, 3, 4] {
             if j < self.k {
                 t = t.wrapping_add(self.seg[j].1);
             }
-            j += 1;
-        }
+        });
         t
     }
     pub fn expected_at(&self, i: usize) -> u16 {
@@ -1066,8 +1095,7 @@ impl Offers {
     }
     pub fn max_pos(&self) -> Option<usize> {
         let mut m: Option<usize> = None;
-        let mut k = 0;
-        while k < OFFERS {
+        unroll!(k in [0, 1, 2, 3, 4, 5] {
             if k < self.n {
                 let p = self.o[k].0;
                 m = match m {
@@ -1075,8 +1103,7 @@ impl Offers {
                     _ => Some(p),
                 };
             }
-            k += 1;
-        }
+        });
         m
     }
     pub fn matches(&self, s: &Snap) -> bool {
@@ -1088,19 +1115,69 @@ impl Offers {
             (Some(m), Some((p, id))) => {
                 let mut cnt = 0usize;
                 let mut member = false;
-                let mut k = 0;
-                while k < OFFERS {
+                unroll!(k in [0, 1, 2, 3, 4, 5] {
                     if k < self.n && self.o[k].0 == m {
                         cnt += 1;
                         if self.o[k].1 == id {
                             member = true;
                         }
                     }
-                    k += 1;
-                }
+                });
                 p == m && member && s.alt_merges as usize == cnt - 1
             }
             _ => false,
+        }
+    }
+}
+
+// ---------------------------------------------------------------------------------------------
+// Contract stub for a child *iterable* parser: each `next` call yields an item, reports "no more
+// items", or fails; call k is logged in slot `slot + k`. At most `span - 1` items are yielded (the
+// bound of the driver harnesses that use it); step harnesses use a single call.
+// ---------------------------------------------------------------------------------------------
+pub struct AnyIt<I, E> {
+    pub slot: usize,
+    pub span: usize,
+    pub progress: bool,
+    pub _p: core::marker::PhantomData<fn(I, E)>,
+}
+impl<I, E> Clone for AnyIt<I, E> {
+    fn clone(&self) -> Self {
+        *self
+    }
+}
+impl<I, E> Copy for AnyIt<I, E> {}
+pub fn anyit<I, E>(slot: usize, span: usize) -> AnyIt<I, E> {
+    AnyIt { slot, span, progress: true, _p: core::marker::PhantomData }
+}
+impl<I, Er, C> IterParser<'static, I, u16, X<Er, C>> for AnyIt<I, X<Er, C>>
+where
+    I: Input<'static, Cursor = usize>,
+    Er: VE + Error<'static, I>,
+    C: 'static,
+{
+    type IterState<M: Mode> = usize;
+    fn make_iter<M: Mode>(&self, inp: &mut InputRef<'static, '_, I, X<Er, C>>) -> PResult<Emit, usize> {
+        inp.state.reg[7] = inp.state.reg[7].wrapping_add(1); // ghost: number of make_iter calls
+        Ok(0)
+    }
+    fn next<M: Mode>(&self, inp: &mut InputRef<'static, '_, I, X<Er, C>>, st: &mut usize) -> IPResult<M, u16> {
+        let k = *st;
+        *st = k.wrapping_add(1);
+        let last = k + 1 >= self.span;
+        let idx = if last { self.slot + self.span - 1 } else { self.slot + k };
+        let kind = ch::below(2) as u8;
+        if last {
+            // bound of the harness: the last logged call does not yield another item
+            ch::assume(kind != 0);
+        }
+        let mut emit = false;
+        let _probe = M::bind(|| emit = true);
+        let out = stub_step(inp, idx, self.slot, kind, self.progress, true, emit);
+        match kind {
+            0 => Ok(Some(M::bind(|| out))),
+            1 => Ok(None),
+            _ => Err(()),
         }
     }
 }
